@@ -77,6 +77,38 @@ def twin_programs(rng, nproc):
     return progs
 
 
+def relay_programs(rng):
+    """One client grows the log 1 -> 2 and later repeats that (by then stale) request; another, talking to the OTHER instance, grows it 2 -> 3 in
+    between; readers on both. Whatever an endpoint keeps in its process about 'the size I have seen' is behind the store after the other instance's update."""
+    R = lambda m, n: {"k": "right", "b": 0, "m": m, "n": n}
+    upd = lambda old, n, pf: {"kind": "update", "log": "l1", "req": {"auth": "good", "old": old, "b": 0, "n": n, "extra": 0, "stale": 0, "ext": 0, "pf": pf}}
+    rd = {"kind": "read", "log": "l1"}
+    p1 = [upd(1, 2, R(1, 2))] + [rd] * rng.choice([1, 2, 3, 4]) + [upd(1, 2, R(1, 2)), upd(0, 1, {"k": "empty"})]
+    p2 = [rd] * rng.choice([0, 1, 2, 3]) + [upd(2, 3, R(2, 3)), rd, upd(2, 3, R(2, 3))]
+    return [p1, p2, [rd] * 3]
+
+
+def two_instance_lin_part(work, rep, tier, seed, prop):
+    """Two instances of the production binary on one database file (as in C01's part), judged by Trace_Lin: every answer, including the size a 409
+    states, is the atomic witness' answer at some point between the request and its response."""
+    rng = random.Random(seed * 31337 + 5)
+    binp = build_prod_binary()
+    nruns = 40 if tier == "quick" else 300
+    runs = [{"id": "relay%s-%d" % (prop, j), "mode": "free", "db0": db0_of("s1"), "prog": relay_programs(rng), "sched": []} for j in range(nruns)]
+    rp, tp = work.path("relay-%s.jsonl" % prop), work.path("relay-%s.ndjson" % prop)
+    write_runs(rp, OPS_PARAMS, runs)
+    o, dt = run_driver(["prod-conc", "-bin", binp, "-in", rp, "-out", tp, "-store", "sqlfile", "-instances", "2", "-seed", str(seed), "-dir", work.sub("db")])
+    rep.notes.append("two instances, relayed growth/" + o.strip())
+    for r in judge_in_chunks(work, rep, tp, 3, "relay-%s" % prop):
+        evs = [e for e in read_ndjson(tp) if e.get("run") == r["run"]]
+        rep.violation("run %s (two instances of the production binary on one database file): the answers are not those of the atomic witness in any order compatible with real time; "
+                      "the judge cannot get past event %d" % (r["run"], r["i"]), {"property": prop, "store": "sqlfile, two instances", "run": r["run"], "events": evs})
+    evs = read_ndjson(tp)
+    rep.cov["two_instance_relay_runs"] = nruns
+    rep.cov["stale_answers_whose_stated_size_was_judged"] = sum(1 for e in evs if e.get("e") == "ret" and "told" in e)
+    rep.cov["traces_validated_against_impl"] += nruns
+
+
 def prod_conc_part(work, rep, tier, seed, prop, what):
     """Overlapping requests through the production binary (concurrent HTTP/2 streams on the bastion connection it dials, reads over its read API):
     random programs and 'twin' programs (overlapping submissions that differ in one respect only). Under overlap the answer to each request is
@@ -223,6 +255,7 @@ def c05(work, tier, seed, replay):
     # ---- "never accepted on the strength of a state that was no longer current": the store reports trouble during one call (TLC-listed placements
     # at the SQL-driver level: the query, the row fetch, the insert, the commit) and works again right after, as when another process held the
     # database lock for a moment. Trace_Witness: the answer is the atomic witness' answer on the state that was current, or a storage error without effect.
+    two_instance_lin_part(work, rep, tier, seed, "C05")
     import seqfam
     fev, _ = fault_pipeline(work, rep, "quick", seed, "C05", groups={"driver", "fetch"})
     rep.cov["updates_during_which_the_store_reported_trouble"] = sum(1 for e in fev if e.get("e") == "update" and e.get("fired"))
@@ -385,6 +418,18 @@ def fault_pipeline(work, rep, tier, seed, prop, groups=None):
                     runs_by[(stkind, "panic")].append({"id": "%s-panic%d%s" % (scen, k_, call), "steps": pre + steps + TAIL})
                 npn += 1
         rep.cov.setdefault("storage_call_panics_recovered_by_the_caller", {})[scen] = npn
+        # a long OUTAGE of one storage call: the same update fails a hundred times in a row at that call (the database is unreachable, the disk
+        # is full for a while), then the store works again: the witness carries on from the last committed state, whatever it counted meanwhile
+        upds = [o2 for o2 in prog if o2["kind"] == "update"]
+        if upds:
+            o2 = upds[-1]
+            pre = [x for x in (seqfam.tofu_steps(db0_of(db), 2) if db == "s1" else []) if x["log"] == "l1"]
+            for call, dcall in (("WriteOps", "begin"), ("GetLatest", "query"), ("Set", "exec"), ("Set", "commit")):
+                bad = {"op": "update", "log": o2["log"], "req": o2["req"]}
+                runs_by[("inmem", "iface")].append({"id": "%s-outage-%s" % (scen, call), "steps": pre + [dict(bad, faults=[call])] * 100 + [bad] + TAIL})
+                runs_by[("sqlfault", "iface")].append({"id": "%s-outage-%s" % (scen, call), "steps": pre + [dict(bad, faults=[call])] * 100 + [bad] + TAIL})
+                runs_by[("sqlfault", "driver")].append({"id": "%s-outage-d%s" % (scen, dcall), "steps": pre + [dict(bad, dfaults=[dcall])] * 100 + [bad] + TAIL})
+            rep.cov.setdefault("outages_of_one_storage_call_of_100_requests", {})[scen] = 12
     jc = seqfam.consts(Logs={"l1", "l2"}, MaxSize=3, NBranch=2, ForkAt=Sub("Fork_1"))
     all_events = []
     for (store, lv), runs in runs_by.items():
